@@ -1,4 +1,5 @@
 import ObiVerif.Model.ReadErr
+import ObiVerif.Model.Kseq
 import ObiVerif.Driver.Util
 /-! line protocol for C17 -/
 namespace ObiVerif.Driver.C17
@@ -9,6 +10,29 @@ def parseErr : String → Option Err
 
 def kv (key : String) (s : String) : Option Nat :=
   if s.startsWith (key ++ "=") then (s.drop (key.length + 1)).toString.toNat? else none
+
+def parseFin : String → Option Kseq.Fin
+  | "fin=clean" => some .clean | "fin=trunc" => some .trunc | "fin=hard" => some .hard | _ => none
+
+def showRec (r : Kseq.Rec) : String :=
+  let g := Kseq.goRec r
+  hex g.1 ++ "/" ++ hex g.2.1 ++ "/" ++ hex g.2.2.1 ++ "/" ++ hex g.2.2.2
+
+/-- the C reader on the bytes zlib delivers (`d`) and zlib's final status; kseq's buffer is 4096 bytes -/
+def runKseq (fin : Kseq.Fin) (d : List UInt8) : String :=
+  let a := Kseq.readAll 4096 fin false 0 d
+  let b := Kseq.readAll 4096 fin true 255 d
+  match fin with
+  | .clean =>
+    (match a.2 with
+     | .ok => joinSp ("ok" :: toString a.1.length :: a.1.map showRec)
+     | .fatal c => "fatal:" ++ toString c
+     | .stuck => "stuck")
+  | _ =>
+    (match a.2, b.2 with
+     | .fatal _, .fatal _ => "fatal"
+     | .stuck, _ | _, .stuck => "stuck"
+     | _, _ => "accepted")
 
 def run (line : String) : String :=
   match words line with
@@ -29,14 +53,16 @@ def run (line : String) : String :=
     if e = "err=raw" then "raw" else
     match kv "n" n, (if e.startsWith "err=" then parseErr (e.drop 4).toString else none) with
     | some n, some e =>
-      if n = 0 then (if e = .eof then "empty" else "fail")
-      else (match guessPeek 1048576 ⟨List.replicate n 0, e⟩ with | .ok => "ok" | .fatal => "fail")
+      -- `ReadSequencesFromFile` on a stream of `n` bytes ending with `e` (the verdict does not depend on the bytes)
+      (match readFile endOfLastFastaEntry 1048576 1048576 ⟨List.replicate n 62, e⟩ with
+       | .empty => "empty"
+       | .fail => "fail"
+       | .read r => if r.2 == .ok then "ok" else "fail")
     | _, _ => "bad-op"
-  | ["kseq", _, _, c, o] =>
-    -- zlib reports every stream shorter than the whole file as truncated (data given by the harness);
-    -- the reader's rule: any pending stream error is fatal, a clean end is ok
-    match kv "cut" c, kv "of" o with
-    | some c, some o => if c < o then "fail" else "ok"
+  | ["kseq", _, _, _, f, d] =>
+    -- zlib's verdict on the (damaged) file is data: the bytes its gzread calls deliver and the final gzerror
+    match parseFin f, (if d.startsWith "d=" then unhex (d.drop 2).toString else none) with
+    | some f, some d => runKseq f d
     | _, _ => "bad-op"
   | "cmd" :: _ => "exit-nonzero"
   | _ => "bad-op"
